@@ -307,3 +307,8 @@ def rule_h5(F):
 def rules(ctx):
     F = ctx["F"]
     return [rule_h1(F), rule_h2(F), rule_h3(F), rule_h4(F), rule_h5(F)]
+
+
+def thorough_rules(ctx):
+    from .. import witness
+    return [witness.rule("C11", "C11.H6", "Package/TypedFunc have no public constructor; a handle is an owned value not borrowing the package (witnesses)")]
